@@ -68,6 +68,7 @@ var rules = []fileRule{
 		yieldRecv: []string{"tssQueue"},
 		renames:   map[string]string{"tssCap": "tssCapV"}},
 	{glob: "core/server/*.go", substs: netSubsts},
+	{glob: "core/server/server_scion.go", substs: []subst{{"scion", "NewDaemonConnector", "simnet", "NewDaemonConnector"}}},
 	{glob: "core/client/*.go", substs: netSubsts},
 	{glob: "core/client/client.go", selectFns: []string{"collectMeasurements"}},
 	{glob: "net/udp/*.go", substs: unixSubsts},
